@@ -101,6 +101,7 @@ def r2(ctx):
         K1 = Attr(Attr(m, "arguments"), "num_clusters")
         ctx.check(rng in (Range(0, K1), Range(0, tm.length(Attr(m, "clusters")))) and k == Sym(s.loops[-1].target.id), fi,
                   "a count is stored for every cluster id", line=s.stmt.lineno, role="param-count:range", expected=str(Range(0, K1)), found=str(rng))
+    _narrow_integer_allocations(ctx, fi)
 
 
 @rule("C16", "R3", "FLOW", "P adds the current label's parameter count once per maximal run of equal labels", floor=5)
@@ -196,6 +197,22 @@ def _r3(ctx):
     ctx.check(ok_upd, fi, "the carried label becomes the current label exactly when the guard fires", role="carried:update",
               expected=f"{cname} = <current label> under the same guard as the +=",
               found="; ".join(unparse(n.ast) for n in inloop) or "no in-loop definition")
+
+
+def _narrow_integer_allocations(ctx, fi):
+    """The parameter count is a sum of up to T * (NW)^2 entries: it must not be accumulated in a 32-bit (or narrower) integer array,
+    which wraps silently under NumPy's scalar promotion rules."""
+    narrow = ("int32", "int16", "int8", "uint32", "uint16", "uint8", "intc", "short")
+    saved, ctx.evidence = ctx.evidence, True
+    try:
+        for n in Resolver.walk_own(fi.node):
+            if isinstance(n, ast.Call):
+                for k in n.keywords:
+                    if k.arg == "dtype" and any(unparse(k.value).endswith(x) or unparse(k.value).strip("'\"") == x for x in narrow):
+                        ctx.fail(fi, f"`{unparse(n, 60)}` holds counts in a narrow integer type: the parameter total wraps around for a large model",
+                                 line=n.lineno, role=f"count:narrow-dtype:{unparse(k.value)}", expected="Python int / int64", found=unparse(k.value))
+    finally:
+        ctx.evidence = saved
 
 
 @rule("C16", "R4", "NUM", "the log-determinant in the BIC cannot under/overflow for a positive-definite MRF", floor=1, evidence=True)
